@@ -140,7 +140,7 @@ def body():
         a = api.operators.boundary.laplace.single_layer(s, s, s, precision="double").weak_form().to_dense()
         b = api.operators.boundary.laplace.single_layer(s, s, s, precision="single").weak_form().to_dense()
         chk.count("precision", True)
-        if np.abs(a - b).max() > 1e-5 * np.abs(a).max():
+        if not (np.abs(a - b).max() <= 1e-5 * np.abs(a).max()):   # NaN counts as a deviation
             chk.violation("precision", "single-precision request differs from double by %.3g (relative)" % (np.abs(a - b).max() / np.abs(a).max()), {})
     except Exception as exc:
         chk.violation("precision", "%s: %s" % (type(exc).__name__, exc), {})
